@@ -1,41 +1,9 @@
-"""Deliberate property-breaking changes used to demonstrate detection.
-
-Each entry: name, property, file, old, new (exact single replacement), and the
-packages whose pinned tests must still pass with the change.
-"""
-
-MUTATIONS = [
-    dict(name="c17-loadstore", prop="C17", file="syncutil/onceconstructor.go", tests=["./syncutil/"],
-         edits=[("""	loaderVal, _ = c.loaders.LoadOrStore(key, func() (loaded V) {""",
-                 """	loader := func() (loaded V) {"""),
-                ("""		return cached
-	})
-""", """		return cached
-	}
-	loaderVal, inited = c.loaders.Load(key)
-	if !inited {
-		c.loaders.Store(key, loader)
-		loaderVal = loader
-	}
-""")]),
-    dict(name="c17-semacap", prop="C17", file="syncutil/sema.go", tests=["./syncutil/"],
-         edits=[("make(chan unit, maxRes)", "make(chan unit, maxRes+1)")]),
-    dict(name="c17-release-blocks", prop="C17", file="syncutil/sema.go", tests=["./syncutil/"],
-         edits=[("""	select {
-	case <-c.c:
-	default:
-	}""", """	<-c.c""")]),
-    dict(name="c17-acquire-ignores-ctx-when-full", prop="C17", file="syncutil/sema.go", tests=["./syncutil/"],
-         edits=[("""	select {
-	case c.c <- unit{}:
-		return nil
-	case <-ctx.Done():
-		return ctx.Err()
-	}""", """	if err = ctx.Err(); err != nil {
-		return err
-	}
-
-	c.c <- unit{}
-
-	return nil""")]),
-]
+"""Collects the demonstration mutations of all checks (checks/<id>/mutations.py)."""
+import glob, os
+HERE = os.path.dirname(os.path.dirname(os.path.abspath(__file__)))
+MUTATIONS = []
+for _p in sorted(glob.glob(os.path.join(HERE, "checks", "*", "mutations.py"))):
+    _ns = {}
+    with open(_p) as _f:
+        exec(compile(_f.read(), _p, "exec"), _ns)
+    MUTATIONS += _ns["MUTATIONS"]
